@@ -30,6 +30,7 @@
 #include <util/check.h>
 #include <util/expected.h>
 #include <util/fs.h>
+#include <util/fs_helpers.h>
 #include <util/log.h>
 #include <util/obfuscation.h>
 #include <util/overflow.h>
@@ -1218,11 +1219,21 @@ static auto InitBlocksdirXorKey(const BlockManager::Options& opts)
 #endif
         )};
         xor_key_file << obfuscation;
+        // The key must be durable before any block data that depends on it is:
+        // block and undo files are fsynced when they are flushed, so a power
+        // loss must not be able to discard the key they were obfuscated with.
+        if (!xor_key_file.Commit()) {
+            throw std::runtime_error{strprintf("Error syncing XOR key file %s: %s",
+                                               fs::PathToString(xor_key_path),
+                                               SysErrorString(errno))};
+        }
         if (xor_key_file.fclose() != 0) {
             throw std::runtime_error{strprintf("Error closing XOR key file %s: %s",
                                                fs::PathToString(xor_key_path),
                                                SysErrorString(errno))};
         }
+        // Make the new directory entry durable as well.
+        DirectoryCommit(opts.blocks_dir);
     }
     // If the user disabled the key, it must be zero.
     if (!opts.use_xor && obfuscation != decltype(obfuscation){}) {
